@@ -149,7 +149,28 @@ func IterItems(t util.MerklePatriciaTrieI) (items []bridge.Item, res string) {
 			items = append(items, bridge.Item{Path: append([]byte(nil), path...), Value: append([]byte(nil), vn.GetValueBytes()...)})
 			return nil
 		}, util.NodeTypeValueNode)
-		return ResClass(err)
+		if err != nil || len(t.GetRoot()) == 0 {
+			return ResClass(err)
+		}
+		// the same walk visiting every node type, started explicitly at the root: it shows the same pairs, and every node it
+		// shows is reported under the hash of its content
+		var all []bridge.Item
+		keysOK := true
+		err = t.IterateFrom(context.Background(), t.GetRoot(), func(ctx context.Context, path util.Path, key util.Key, node util.Node) error {
+			if vn, ok := node.(*util.ValueNode); ok {
+				all = append(all, bridge.Item{Path: append([]byte(nil), path...), Value: append([]byte(nil), vn.GetValueBytes()...)})
+			} else if node != nil && !bytes.Equal(key, node.GetHashBytes()) {
+				keysOK = false
+			}
+			return nil
+		}, util.NodeTypesAll)
+		if err != nil {
+			return ResClass(err)
+		}
+		if !keysOK || ItemsKey(all) != ItemsKey(items) {
+			return "itermismatch"
+		}
+		return "ok"
 	})
 	return
 }
@@ -179,6 +200,12 @@ func GetRaw(t util.MerklePatriciaTrieI, p []byte) (res string, val []byte) {
 	res = Guard(func() string {
 		v, err := t.GetNodeValueRaw(util.Path(p))
 		val = append([]byte(nil), v...)
+		// the typed lookup answers like the raw one
+		var tv util.SecureSerializableValue
+		terr := t.GetNodeValue(util.Path(append([]byte(nil), p...)), &tv)
+		if ResClass(terr) != ResClass(err) || (err == nil && !bytes.Equal(tv.Buffer, val)) {
+			return "typedmismatch"
+		}
 		// the caller owns what a lookup hands out: writing into it must not reach the stored node
 		for i := range v {
 			v[i] ^= 0xa5
